@@ -7,6 +7,7 @@ import subprocess
 import tempfile
 
 from harness import common, reader, sysimg, syslevel, sysprops
+from harness.props import parsehostileleaf
 from harness.props import c11
 
 MODULE = 'C15'
@@ -380,6 +381,7 @@ def run(ctx):
     common.proof_stage(ctx, MODULE, common.theorems_of(MODULE))
     common.setup_impl_path()
     work_proportion(ctx)
+    parsehostileleaf.correspondence(ctx)
     quick = ctx.tier == 'quick'
     rng = ctx.rng
     nimg = 24 if quick else 200
